@@ -333,7 +333,7 @@ class BridgeRun:
                     await bridge.stop()
                     stopped = True
                     self.after_stop = True
-                await vnet.settle(4)
+                await vnet.settle(10)
                 for tag, it, data, handed in sent:
                     self.log(ev="Dgram", p=it["p"], b=list(data), handed=bool(handed), cbraise=bool(it.get("cbraise")),
                              delivered=self.burst[tag]["got"], warns=0, logs=0, excs=[], burst=True, cut=stopped)
@@ -357,7 +357,7 @@ class BridgeRun:
                 self.cur = st
                 self.raise_next = st.get("cbraise") or False
                 handed = self.net.send_udp(self.loop, st["p"], data)
-                await vnet.settle(2)
+                await vnet.settle(8)            # a bridge may hand the datagram over in a later loop cycle
                 self.cur = None
                 self.raise_next = False
                 excs = []
@@ -366,15 +366,18 @@ class BridgeRun:
                     excs.append(type(ex).__name__ if ex is not None else "context:" + str(c.get("message"))[:40])
                 self.log(ev="Dgram", p=st["p"], b=list(data), handed=bool(handed), cbraise=bool(st.get("cbraise")),
                          delivered=self.got, warns=self.warn_n - w0, logs=self.logh.n - l0, excs=excs, burst=False, cut=False)
-                self.log(ev="Cycle")       # processing a datagram lets the loop cycle
-                if self.stop_task is not None:
+                if self.stop_task is not None:      # the callback stopped the bridge: the stop ran (and the loop cycled) meanwhile
                     task, self.stop_task = self.stop_task, None
                     try:
                         await task
                         self.log(ev="Stop", br=br, how="stop", raised=False)
                     except Exception as x:  # noqa: BLE001
                         self.log(ev="Stop", br=br, how="stop", raised=True, exc=type(x).__name__)
+                    await vnet.settle(2)
+                    self.log(ev="Cycle")
                     self.obs(bridge, allports)
+                    continue
+                self.log(ev="Cycle")       # processing a datagram lets the loop cycle
                 continue
             self.obs(bridge, allports)
         await vnet.settle(3)
